@@ -282,10 +282,9 @@ class BaseProperty(base.BaseObject):
             self._parent.remove(self)
             self._parent = None
         elif self._validate_parent(new_parent):
-            if self._parent is not None:
+            if self._parent is new_parent:
                 self._parent.remove(self)
-            self._parent = new_parent
-            self._parent.append(self)
+            new_parent.append(self)
         else:
             raise ValueError(
                 "odml.Property.parent: passed value is not of consistent type!"
